@@ -313,3 +313,48 @@ func memoArgs() {
 	f3(1, 2, 3, 2)
 	f3(1, 2, 3, 4)
 }
+
+func clauses(x int) {
+	if x > 0 {
+		switch x {
+		default:
+			foo()
+		}
+	}
+	if x > 1 {
+		switch x {
+		case 1, 2:
+			foo()
+		}
+	}
+	if x > 2 {
+		switch x {
+		case 3:
+			foo()
+		default:
+			foo()
+		}
+	}
+}
+
+func bareBranches(rows [][]int) {
+outer:
+	for _, r := range rows {
+		for _, v := range r {
+			if v < 0 {
+				note(v)
+				continue outer
+			}
+			if v == 0 {
+				note(v)
+				continue
+			}
+			if v > 9 {
+				note(v)
+				break outer
+			}
+			note(v)
+			break
+		}
+	}
+}
